@@ -88,10 +88,24 @@ Definition enc_head (bd v : N) : list N :=
   else ((bd + 27) mod 256) :: be_put 8 v.
 
 (* encStringBytesS: chunk length n = max(4, min(vlen/4, 1024)) *)
-Fixpoint chunks (fuel : nat) (n : nat) (s : list N) : list (list N) :=
+(* utf8.RuneStart: not a continuation byte 10xxxxxx *)
+Definition rune_start (x : N) : bool := negb (N.land x 192 =? 128).
+
+(* F10-4: the next chunk of a TEXT string starts at the nearest rune start at or before the cut
+   (for i3 := i2; i3 > i; i3-- { if RuneStart(v[i3]) ... }); byte strings are cut at fixed offsets *)
+Fixpoint cut_back (j : nat) (s : list N) : option nat :=
+  match j with
+  | O => None
+  | S j' => if rune_start (nth j s 0) then Some j else cut_back j' s
+  end.
+
+Definition cut (text : bool) (n : nat) (s : list N) : nat :=
+  if text && (n <? length s)%nat then match cut_back n s with Some k => k | None => n end else n.
+
+Fixpoint chunks (text : bool) (fuel : nat) (n : nat) (s : list N) : list (list N) :=
   match fuel with
   | O => []
-  | S f => match s with [] => [] | _ => firstn n s :: chunks f n (skipn n s) end
+  | S f => match s with [] => [] | _ => firstn (cut text n s) s :: chunks text f n (skipn (cut text n s) s) end
   end.
 
 Definition chunk_len (vlen : nat) : nat := Nat.max 4 (Nat.min (vlen / 4) 1024).
@@ -99,7 +113,7 @@ Definition chunk_len (vlen : nat) : nat := Nat.max 4 (Nat.min (vlen / 4) 1024).
 Definition enc_str (O : eopts) (bb : N) (s : list N) : list N :=
   if eo_indef O then
     [if bb =? baseBytes then bdIndefBytes else bdIndefString]
-    ++ flat_map (fun c => enc_head bb (N.of_nat (length c)) ++ c) (chunks (length s) (chunk_len (length s)) s)
+    ++ flat_map (fun c => enc_head bb (N.of_nat (length c)) ++ c) (chunks (negb (bb =? baseBytes)) (length s) (chunk_len (length s)) s)
     ++ [bdBreak]
   else enc_head bb (N.of_nat (length s)) ++ s.
 
